@@ -173,7 +173,7 @@ def boson_search(chk, n_cases):
         rho0 = a @ a.conj().T
         rho0 /= np.trace(rho0)
         ck = rng.choice(["power", "power", "customsd", "customcorr"])
-        T = rng.choice([0.0, 0.2, 2.0])
+        T = rng.choice([0.0, 0.02, 0.2, 2.0]) if it >= 2 else 0.02      # 0.02: cold but non-zero (overflow-guard branch of eta_function)
         if ck == "power":
             corr = oqupy.PowerLawSD(alpha=rng.choice([0.05, 0.2, 0.5]), zeta=rng.choice([0.5, 1, 2, 3]), cutoff=rng.choice([1.0, 3.0]),
                                     cutoff_type=rng.choice(["hard", "exponential", "gaussian"]), temperature=T)
@@ -324,7 +324,7 @@ def run(chk):
                  "search oracle: explicit system + harmonic modes evolution in a truncated Fock space (10-14 levels per mode), same symmetric splitting"],
         rule="back-end path sums as in C02 (fewer); influence_matrix for dk in [-8,8], five dt, dkmax in {None,1,2,5,8}, add_correlation_time in "
              "{None,0,.17,1,inf}, with/without degeneracy positions (arguments bit-exact, matrix exact); independent-boson search over dimension "
-             "2-4, rotated bases, power-law / custom densities and correlations, T in {0,.2,2}, all memory settings; finite-mode search: 1-2 modes given "
+             "2-4, rotated bases, power-law / custom densities and correlations, T in {0,.02,.2,2}, all memory settings; finite-mode search: 1-2 modes given "
              "through their autocorrelation function, generic non-commuting H, rotated couplings, T in {0,.3,.5}, full memory and cut-offs beyond the run, "
              "Tempo and PtTempo vs explicit system+modes simulation at 1e-6; distinct = distinct configuration",
         assumptions=["quadrature accuracy and SVD truncation error are explored by the search, not proved",
